@@ -75,6 +75,7 @@ func (c *FnCtx) call(fr *frame, st *State, guard string, site ssa.Instruction, c
 		return r
 	}
 	key := funcKey(callee)
+	c.atCall(fr, st, key[strings.LastIndex(key, "::")+2:], c.argVals(fr, cc)...)
 	if con := c.eng.contractFor(key, c.prof); con != nil && !con.Inline {
 		return c.applyContract(fr, st, callee.Signature, con, paramNames(callee), c.argVals(fr, cc), key, callee.Pkg.Pkg)
 	}
@@ -147,10 +148,15 @@ func (c *FnCtx) invoke(fr *frame, st *State, site ssa.Instruction, cc *ssa.CallC
 		return c.resultVal(st, cc.Signature(), "errstr")
 	}
 	sig := cc.Method.Type().(*types.Signature)
+	c.atCall(fr, st, iname+"."+cc.Method.Name())
 	if con := c.eng.contractFor(key, c.prof); con != nil {
 		names := []string{"self"}
 		for i := 0; i < sig.Params().Len(); i++ {
-			names = append(names, sig.Params().At(i).Name())
+			n := sig.Params().At(i).Name()
+			if n == "" || n == "_" {
+				n = fmt.Sprintf("arg%d", i)
+			}
+			names = append(names, n)
 		}
 		args := append([]interface{}{c.valIn(fr, cc.Value)}, c.argVals(fr, cc)...)
 		var pk *types.Package
@@ -257,6 +263,9 @@ func (c *FnCtx) applyContract(fr *frame, st *State, sig *types.Signature, con *C
 		env2.resNames = append(env2.resNames, sig.Results().At(i).Name())
 	}
 	for _, e := range con.Ensures {
+		c.assume(guard, c.evalBool(&env2, e.E))
+	}
+	for _, e := range con.AssumeEnsures {
 		c.assume(guard, c.evalBool(&env2, e.E))
 	}
 	return res
@@ -475,4 +484,26 @@ func (c *FnCtx) callWriteSet(cc *ssa.CallCommon) (regs []string, all bool) {
 		return nil, false
 	}
 	return nil, true
+}
+
+// atCall: obligations the caller's contract attaches to every call of the named callee
+// (evaluated in the caller's scope and state, before the call).
+func (c *FnCtx) atCall(fr *frame, st *State, callee string, args ...interface{}) {
+	if !fr.top || fr.con == nil || fr.con.AtCall == nil {
+		return
+	}
+	cls := fr.con.AtCall[callee]
+	if len(cls) == 0 {
+		return
+	}
+	fr.atCallSeen[callee]++
+	env := c.newEnv(fr, st)
+	for i, a := range args {
+		if t, ok := a.(Term); ok {
+			env.bind[fmt.Sprintf("arg%d", i)] = t
+		}
+	}
+	for i, cl := range cls {
+		c.oblige("at-call", fmt.Sprintf("at-call@%s#%s@%s", callee, clauseName(cl, i), shortPos(c.curPos)), st.g, c.evalBool(env, cl.E), cl.Src)
+	}
 }
